@@ -187,13 +187,14 @@ CLAIMED = {
         'design_ref': 'DESIGN.md 8.32',
     },
     'C04': {
-        'text': 'PARTIAL.  Deductive proof (Verus) on the verbatim bodies of format_for_print_pred and next_solution_print (unit print) and of next_solution_bip (unit solver): '
+        'text': 'PARTIAL.  Deductive proof (Verus) on the verbatim bodies of format_for_print_pred, next_solution_print and next_solution_print_list (unit print) and of next_solution_bip (unit solver): '
                 'the text of print is its first argument with the `%s` markers replaced left to right by the later arguments (left-over arguments follow one another - concatenation when there is no marker -, left-over markers vanish), '
-                'each argument shown with its bound value; a print goal with arguments is exactly one output event; a print / print_list / nl node writes only on its first request, at most once, and a node that has reported "no more" writes nothing (C05). '
+                'each argument shown with its bound value; a print goal with arguments is exactly one output event; print_list writes one line per argument, in argument order and each once (a list as the text of its elements, after the first argument preceded by ",\\n"), nothing without arguments; '
+                'a print / print_list / nl node writes only on its first request, and a node that has reported "no more" writes nothing (C05). '
                 'The trace sentence - the output of a whole search is what the reference depth-first search writes, in execution order - is a whole-history statement and is checked BOUNDED only: '
                 '2000 random programs per seed against a reference interpreter (c04_prog).',
         'note': 'Trusted: the cutting specification of str::split (T3, spec/print.rs: at least one piece; uninterpreted otherwise), Display of a term uninterpreted, heap model (T8) for the output events, R10 wrappers for String += and ToString, R16 (print!). '
-                'ASSUMED: acyclic bindings at next_solution_print (C08 invariant, not carried through the solver unit); print_list is not under contract.',
+                'ASSUMED: acyclic bindings at next_solution_print / next_solution_print_list (C08 invariant, not carried through the solver unit); the text format_slist gives for one list is an uninterpreted function of the list and the bindings.',
         'technique': 'contract-based deductive verification (Verus) of extracted real code (formatting and once-per-execution clauses) + bounded comparison of output traces with a reference interpreter',
         'design_ref': 'DESIGN.md 8.26',
     },
